@@ -899,6 +899,55 @@ fn deadline_after(start: Instant, interval: Duration) -> Instant {
     start.checked_add(interval).unwrap_or_else(Instant::now)
 }
 
+/// Hook H-MERGE (request side): the external model checker drives the production `FetchPlan::note_*`
+/// merging and reads back what the plan owes. No logic of its own.
+#[cfg(scylla_verif)]
+pub(crate) mod verif_seam {
+    use super::{ClientRoutesFetchRequest, FetchPlan};
+    use uuid::Uuid;
+
+    pub(crate) struct Plan(FetchPlan);
+
+    impl Plan {
+        /// `FetchPlan::empty()`, the plan `work_on_cc` starts from when nothing accrued.
+        pub(crate) fn new() -> Self {
+            Plan(FetchPlan::empty())
+        }
+        pub(crate) fn note_full_needed(&mut self) {
+            self.0.note_full_needed()
+        }
+        pub(crate) fn note_topology(&mut self) {
+            self.0.note_topology()
+        }
+        pub(crate) fn note_client_routes(&mut self, pairs: Vec<(String, Uuid)>) {
+            self.0.note_client_routes(ClientRoutesFetchRequest {
+                pairs: pairs.into_iter().collect(),
+            })
+        }
+        /// What `start_due_fetches` leaves behind once everything owed was started.
+        pub(crate) fn drain(&mut self) {
+            self.0 = FetchPlan::empty();
+        }
+        /// (full fetch owed, topology re-read owed, client-routes pairs owed)
+        pub(crate) fn describe(&self) -> (bool, bool, Vec<(String, Uuid)>) {
+            match &self.0 {
+                FetchPlan::Full => (true, false, Vec::new()),
+                FetchPlan::Partial {
+                    client_routes,
+                    topology,
+                } => (
+                    false,
+                    *topology,
+                    client_routes
+                        .as_ref()
+                        .map(|r| r.pairs.iter().cloned().collect())
+                        .unwrap_or_default(),
+                ),
+            }
+        }
+    }
+}
+
 #[cfg(test)]
 mod tests {
     use std::collections::HashSet;
